@@ -56,10 +56,11 @@ func (c *closeRecorder) Close() error {
 }
 
 type lifeClient struct {
-	c    *girc.Client
-	mu   sync.Mutex
-	cur  *lifeObs
-	fire chan string // signals from handlers to the scenario ("line10", "block", "queued")
+	lateSender bool // its DISCONNECTED handler sends a message and calls Quit()
+	c          *girc.Client
+	mu         sync.Mutex
+	cur        *lifeObs
+	fire       chan string // signals from handlers to the scenario ("line10", "block", "queued")
 }
 
 func newLifeClient(pingOff ...bool) *lifeClient {
@@ -79,7 +80,16 @@ func newLifeClient(pingOff ...bool) *lifeClient {
 			if o != nil {
 				o.Lifecycle = append(o.Lifecycle, e.Command)
 			}
+			idx := -1
+			if o != nil {
+				idx = o.Idx
+			}
 			lc.mu.Unlock()
+			if e.Command == girc.DISCONNECTED && lc.lateSender && idx >= 0 {
+				// an application that says goodbye from its DISCONNECTED handler: nothing of it may reach the NEXT connection
+				c.Cmd.Message("#late", fmt.Sprintf("sent from the teardown of c%d ", idx))
+				c.Quit(fmt.Sprintf("bye c%d", idx))
+			}
 			return
 		}
 		if o != nil {
@@ -682,6 +692,7 @@ func init() {
 		places := strings.Split(in["places"], ",")
 		peers := strings.Split(in["peers"], ",")
 		lc := newLifeClient(in["pingoff"] == "1")
+		lc.lateSender = in["latesender"] == "1"
 		var prev *lifeObs
 		for i := range terms {
 			o := lc.runLifeConn(i, terms[i], places[i], peers[i], c.Rng)
@@ -729,6 +740,16 @@ func runC07(c *Ctx) {
 	// must live until it is ended by one of the four causes all the same
 	for _, t := range terms {
 		c.run("life", map[string]string{"pingoff": "1", "terms": t + "," + terms[c.Rng.Intn(4)] + ",close", "places": places[c.Rng.Intn(4)] + ",handler,burst", "peers": "passive,passive,passive"})
+		n++
+	}
+	// real TCP sockets on the loopback interface: the server ends the connection by FIN and by RST
+	for _, how := range []string{"fin", "rst"} {
+		c.run("tcprst", map[string]string{"how": how})
+		n++
+	}
+	// an application whose DISCONNECTED handler still sends and quits: the next connection starts clean all the same
+	for _, t := range []string{"close", "error", "eof"} {
+		c.run("life", map[string]string{"latesender": "1", "terms": t + "," + terms[c.Rng.Intn(4)] + ",close", "places": "burst," + places[c.Rng.Intn(4)] + ",reg", "peers": "passive,passive,passive"})
 		n++
 	}
 	// a session that follows a FAILED transport upgrade: Close() ends it for good (Connect returns nil, no further dial)
